@@ -89,10 +89,10 @@ def dg_ok(tag, g):
     s0 = g[keys[0]].shape
     for k in keys[1:]:
         sk = g[k].shape
-        prove(tag + ".DG_ok[%s]" % k, len(sk) == len(s0) and bool(SV(snp._shape_eq_term(sk, s0), "b")))
+        prove(tag + ".DG_ok[%s]" % k, core.conj(len(sk) == len(s0), SV(snp._shape_eq_term(sk, s0), "b") if len(sk) == len(s0) else False))
     for k in keys:
         for c, l in leaves(g[k]):
-            prove(tag + ".DG_ok.leaf[%s%s]" % (k, c), bool(SV(snp._shape_eq_term(l.shape, s0), "b")) if len(l.shape) == len(s0) else False)
+            prove(tag + ".DG_ok.leaf[%s%s]" % (k, c), SV(snp._shape_eq_term(l.shape, s0), "b") if len(l.shape) == len(s0) else False)
 
 
 # --------------------------------------------------------------------------------------
@@ -216,7 +216,7 @@ def getitem(case):
                 if new_leaf._array.ndim == 0:
                     prove("row[%s]" % tag, new_leaf._array.elem(()) == ol["elem"]((pi(0),)))
             else:
-                prove("length[%s]" % tag, new_leaf._array.ndim == 1 and bool(new_leaf.shape[0] == ln))
+                prove("length[%s]" % tag, core.conj(new_leaf._array.ndim == 1, (new_leaf.shape[0] == ln) if new_leaf._array.ndim == 1 else False))
                 q = core.fresh_int("q_" + tag, 0)
                 core.assume(q < ln)
                 prove("same_rowmap[%s]" % tag, new_leaf._array.elem((q,)) == ol["elem"]((pi(q),)))
@@ -279,7 +279,7 @@ def sortby(case):
             ol = old_leaves[c]
             tag = "%s%s" % (k, c)
             prove("unit_kept[%s]" % tag, new_leaf.unit == ol["unit"])
-            prove("length[%s]" % tag, new_leaf._array.ndim == 1 and bool(new_leaf.shape[0] == dims.n))
+            prove("length[%s]" % tag, core.conj(new_leaf._array.ndim == 1, (new_leaf.shape[0] == dims.n) if new_leaf._array.ndim == 1 else False))
             q = core.fresh_int("q_" + tag, 0)
             core.assume(q < dims.n)
             prove("same_permutation[%s]" % tag, new_leaf._array.elem((q,)) == ol["elem"]((pi(q),)))
